@@ -35,7 +35,7 @@ def run_job(job):
     sz = okv.Sizes(su)
     m = Opaque(sz.oprf, sz.ke)
     viol, samples = [], []
-    stats = {"finish_calls": 0, "ksf_calls": 0, "non_finish_ops": 0, "pairs": 0, "faults": 0, "secrets_differ": 0}
+    stats = {"finish_calls": 0, "ksf_calls": 0, "non_finish_ops": 0, "pairs": 0, "faults": 0, "secrets_differ": 0, "combos": {}}
     evals = 0
     bx = bytes.fromhex
 
@@ -84,7 +84,10 @@ def run_job(job):
                 a = s.cmd("creg_start", rng=rng, pw=pw, out_state="g.cs", out_msg="g.rq")
                 b = s.cmd("sreg_start", setup="S", req="g.rq", cred=b"id", out="g.rr")
                 vias = ["new", "clone", "literal", "default"]
-                c = s.cmd("creg_finish", rng=rng, state="g.cs", pw=pw, resp="g.rr", ksf=rm, out="g.up", params_via=vias[(pi + modes.index(rm)) % 4])
+                # identities and context vary with the pair, so that every way of building the parameter structs is seen together
+                # with an explicit instance AND non-default identities / a non-empty context
+                idu, ids = [(None, None), (b"alice", None), (None, b"srv"), (b"alice", b"srv")][(pi + 1) % 4]   # one setting per password world: the uploads of one world are compared with each other below
+                c = s.cmd("creg_finish", rng=rng, state="g.cs", pw=pw, resp="g.rr", ksf=rm, out="g.up", id_u=idu, id_s=ids, params_via=vias[(pi + modes.index(rm)) % 4])
                 d = s.cmd("sreg_finish", upload="g.up", out="g.file")
                 evals += 5
                 for r_, op in ((st, "ServerSetup::new"), (a, "ClientRegistration::start"), (b, "ServerRegistration::start"), (d, "ServerRegistration::finish")):
@@ -97,14 +100,17 @@ def run_job(job):
                 check_log(c, rm, "ClientRegistration::finish(%s)" % rm, oprf_out)
                 uploads[rm] = (c.msg, c.export_key)
                 # model: the KSF result feeds every secret
-                want, want_export, _ = m.registration_upload(pw, blind, bx(b.msg), bx(c.msg)[sz.npk + sz.nh:sz.npk + sz.nh + 32], None, None, lambda x, p=eff[rm]: okv.hksf(p, x))
+                want, want_export, _ = m.registration_upload(pw, blind, bx(b.msg), bx(c.msg)[sz.npk + sz.nh:sz.npk + sz.nh + 32], idu, ids, lambda x, p=eff[rm]: okv.hksf(p, x))
                 if want != bx(c.msg) or want_export != bx(c.export_key):
                     V("upload/export key are not the specification's function of the stretched OPRF output", "registration mode %s" % rm)
                 for lm in modes + ["k1b"]:
                     e = s.cmd("clogin_start", rng=rng, pw=pw, out_state="l.cl", out_msg="l.cq")
-                    f = s.cmd("slogin_start", rng=rng, setup="S", file="g.file", req="l.cq", cred=b"id", out_state="l.sl", out_msg="l.cr")
-                    g = s.cmd("clogin_finish", state="l.cl", pw=pw, resp="l.cr", ksf=lm, out="l.cf", params_via=vias[(stats["pairs"]) % 4])
+                    ctx = [None, b"", b"ctx", b"x" * 300][(stats["pairs"] // 4) % 4]
+                    f = s.cmd("slogin_start", rng=rng, setup="S", file="g.file", req="l.cq", cred=b"id", ctx=ctx, id_u=idu, id_s=ids, out_state="l.sl", out_msg="l.cr")
+                    g = s.cmd("clogin_finish", state="l.cl", pw=pw, resp="l.cr", ksf=lm, ctx=ctx, id_u=idu, id_s=ids, out="l.cf", params_via=vias[(stats["pairs"]) % 4])
                     evals += 3
+                    combo = "%s/%s/%s" % (vias[stats["pairs"] % 4], "ksf" if lm else "noksf", "ctx" if ctx else "noctx")
+                    stats["combos"][combo] = stats["combos"].get(combo, 0) + 1
                     no_ksf(e, "ClientLogin::start")
                     no_ksf(f, "ServerLogin::start")
                     check_log(g, lm, "ClientLogin::finish(%s)" % lm)
@@ -274,4 +280,9 @@ def floors(tier, stats, results):
         out.append("fewer than 40 KSF pairs for suites %s" % missing)
     if stats.get("argon_pairs", 0) < 4 * 20:
         out.append("Argon2 matrix under-observed")
+    for via in ("new", "clone", "literal", "default"):
+        for k in ("ksf", "noksf"):
+            for cx in ("ctx", "noctx"):
+                if stats.get("combos", {}).get("%s/%s/%s" % (via, k, cx), 0) < 20:
+                    out.append("login parameters built via %s with %s and %s seen fewer than 20 times" % (via, k, cx))
     return out
